@@ -123,6 +123,15 @@ func build(t reflect.Type, s M, depth int) []reflect.Value {
 		s = M{}
 	}
 	format, _ := s["format"].(string)
+	if t != rawT && t.Kind() == reflect.Slice && t.ConvertibleTo(rawT) && t.Elem().Kind() == reflect.Uint8 && len(s) == 0 {
+		// a named schema without keywords: raw JSON text under a name of its own
+		var out []reflect.Value
+		for _, txt := range []string{`{"k":[1,"x",null]}`, `1`, `"s"`, `null`, ``} {
+			out = append(out, reflect.ValueOf(jx.Raw(txt)).Convert(t))
+		}
+		out = append(out, reflect.Zero(t))
+		return out
+	}
 	switch t {
 	case timeT:
 		switch format {
@@ -581,7 +590,7 @@ func equal(a, b reflect.Value, s M, wrapped bool) bool {
 		}
 		return ta.Equal(tb)
 	}
-	if a.Type() == rawT {
+	if a.Type() == rawT || (a.Kind() == reflect.Slice && a.Type().Elem().Kind() == reflect.Uint8 && a.Type().ConvertibleTo(rawT) && a.Type().Name() != "" && isRawJSON(a.Bytes()) && isRawJSON(b.Bytes())) {
 		return jsonref.Canon(string(a.Bytes())).Canon == jsonref.Canon(string(b.Bytes())).Canon
 	}
 	if hasSet, hasNull, ok := isWrapper(a.Type()); ok {
@@ -1004,6 +1013,12 @@ func checkRoot(vd *refval.Validator, name string, schema M) {
 				if strings.Contains(fmt.Sprint(out[0].Interface()), "unable to detect sum type variant") {
 					extra["refusal"] = "no-member-to-detect-the-variant-by"
 				}
+				if strings.Contains(fmt.Sprint(out[0].Interface()), "multiple oneOf matches") {
+					extra["refusal"] = "several-variants-matched-by-member"
+					if strings.Contains(string(sj), `[{"$ref":"#/components/schemas/VA"},{"$ref":"#/components/schemas/VD"}]`) {
+						extra["variants"] = "VA,VD"
+					}
+				}
 				report("own-encoding-is-refused-by-the-decoder", string(data), "", fmt.Sprint(out[0].Interface()), extra)
 				return
 			}
@@ -1253,4 +1268,9 @@ func hasDefault(s any) bool {
 		}
 	}
 	return false
+}
+
+// isRawJSON: empty (nothing to write) or one well-formed JSON value.
+func isRawJSON(b []byte) bool {
+	return len(b) == 0 || json.Valid(b)
 }
